@@ -477,7 +477,7 @@ class BehavioralRTLIRTypeCheckVisitorL1( bir.BehavioralRTLIRNodeVisitor ):
       return 1
     # exact integer arithmetic: float log2 is off by one from 2**49 on
     if value < 0:
-      return ( abs(value) - 1 ).bit_length()
+      return ( abs(value) - 1 ).bit_length() + 1 # two's complement: -2**(n-1) is the least n-bit value
     else:
       return value.bit_length()
 
